@@ -2183,6 +2183,26 @@ class PyCdlib:
                             ino.num_udf += 1
                             next_entry.inode = ino
 
+    def _open_fp_checked(self, fp):
+        # type: (IO) -> None
+        """
+        An internal method to open an existing ISO, making sure that a damaged
+        or malicious image is reported with the documented exception type
+        rather than with whatever the record parsers happen to trip over.
+
+        Parameters:
+         fp - The file object containing the ISO to open up.
+        Returns:
+         Nothing.
+        """
+        try:
+            self._open_fp(fp)
+        except pycdlibexception.PyCdlibException:
+            raise
+        except (struct.error, IndexError, KeyError, ValueError, TypeError,
+                AttributeError, ArithmeticError, UnicodeError) as err:
+            raise pycdlibexception.PyCdlibInvalidISO('Malformed ISO (%s: %s)' % (type(err).__name__, err))
+
     def _open_fp(self, fp):
         # type: (IO) -> None
         """
@@ -4112,7 +4132,7 @@ class PyCdlib:
         fp = open(filename, mode)  # pylint: disable=consider-using-with,unspecified-encoding
         self._managing_fp = True
         try:
-            self._open_fp(fp)
+            self._open_fp_checked(fp)
         except Exception:
             fp.close()
             raise
@@ -4134,7 +4154,7 @@ class PyCdlib:
         if self._initialized:
             raise pycdlibexception.PyCdlibInvalidInput('This object already has an ISO; either close it or create a new object')
 
-        self._open_fp(fp)
+        self._open_fp_checked(fp)
 
     def get_file_from_iso(self, local_path, **kwargs):
         # type: (str, Union[str, int]) -> None
